@@ -116,7 +116,36 @@ def run(ctx):
             rd.bad(f, "address-order", "comparator orders elements by their addresses (`%s`): the result depends on the allocator" % bad[1], bad[0].get("line"))
         else:
             rd.ok(f, "address-order", "comparator never compares or subtracts the element addresses themselves", f.line)
-    return [ra, rb, rc, rd, r12_2(prog, scope)]
+    return [ra, rb, rc, rd, r12_2(prog, scope), r12_3(prog)]
+
+
+def r12_3(prog):
+    """The parser's line counter does not carry over from one input to the next.  asn1p_lineno (the lexer's yylineno) ends
+    up in generated names (`<Type>_<line>P<n>` of parameterised instances) and in -fline-refs output, so it must be set on
+    every path to each call of the generated parser asn1p_parse() from hand-written code: otherwise the lines of the
+    second file continue where the first stopped and the per-type files depend on the order of the file names."""
+    from .c15 import must_pass
+    r = Rule("R12.3", "every entry into the generated parser sets the line counter first", floor=2)
+    n = 0
+    for f in sorted(prog.funcs.values(), key=lambda f: f.key):
+        if f.relfile.endswith(("asn1p_y.c", "asn1p_l.c")):
+            continue
+        for b, i, e in f.calls():
+            if e.get("callee") != "asn1p_parse":
+                continue
+            n += 1
+
+            def sets(y):
+                return y["k"] == "assign" and y.get("op") == "=" and (y.get("base") == "asn1p_lineno" or y.get("lhs") == "asn1p_lineno")
+            ok = any(sets(y) for y in b.ev[:i]) or must_pass(f, f.entry, b.id, i, sets)
+            if ok:
+                r.ok(f, "asn1p_parse", "asn1p_lineno is assigned on every path to the parser call", e["line"])
+            else:
+                r.bad(f, "asn1p_parse", "the generated parser is entered without setting asn1p_lineno: line numbers continue from the previous "
+                                        "input, and names that embed a line number depend on the order of the input files", e["line"])
+    if n == 0:
+        raise AnalysisBroken("no call of asn1p_parse found outside the generated parser")
+    return r
 
 
 TERMINATING_CALLS = {"strcpy", "strcat", "snprintf", "sprintf", "vsnprintf", "vsprintf"}
